@@ -71,9 +71,9 @@ theorem sumW_range (f : Nat → M) : ∀ n, sumList ((List.range n).map f) = sum
 /-- what worker `w` still owes to the shared arrays -/
 def owed (c : Config M) (w : Nat) (x : Worker M) : M :=
   match x.pc with
-  | .init => (if w = 0 then sumList c.direct else 0) + sumList (c.contribs w)
-  | .direct k => sumList (c.direct.drop k) + sumList (c.contribs w)
-  | .directSt k => sumList (c.direct.drop k) + sumList (c.contribs w)
+  | .init => sumList (c.direct w) + sumList (c.contribs w)
+  | .direct k => sumList ((c.direct w).drop k) + sumList (c.contribs w)
+  | .directSt k => sumList ((c.direct w).drop k) + sumList (c.contribs w)
   | .exec k => x.loc + sumList ((c.contribs w).drop k)
   | .finLock => x.loc
   | .finLoad => x.loc
@@ -93,32 +93,22 @@ structure Inv (c : Config M) (shared0 : M) (s : State M) : Prop where
   lock : ∀ w, w < c.n → holds (s.wk w).pc = true → s.mutex = some w
   regF : ∀ w, w < c.n → (s.wk w).pc = .finStore → (s.wk w).reg = s.shared
   regD : ∀ w k, w < c.n → (s.wk w).pc = .directSt k → (s.wk w).reg = s.shared
-  dir0 : ∀ w, w < c.n → isDirect (s.wk w).pc = true → w = 0 ∧ (s.wk w).loc = 0
-  dirK : ∀ w k, w < c.n → (s.wk w).pc = .direct k ∨ (s.wk w).pc = .directSt k → k < c.direct.length
+  dir0 : ∀ w, w < c.n → isDirect (s.wk w).pc = true → (s.wk w).loc = 0
+  dirK : ∀ w k, w < c.n → (s.wk w).pc = .direct k ∨ (s.wk w).pc = .directSt k → k < (c.direct w).length
   acct : s.shared + sumW (fun v => owed c v (s.wk v)) c.n = shared0 + totalOf c
 
-theorem sumW_owed_init (c : Config M) (hn : 0 < c.n) :
+theorem sumW_owed_init (c : Config M) :
     sumW (fun v => owed c v (⟨.init, 0, 0⟩ : Worker M)) c.n = totalOf c := by
-  have key : ∀ k, 0 < k → sumW (fun v => owed c v (⟨.init, 0, 0⟩ : Worker M)) k =
-      sumList c.direct + sumW (fun w => sumList (c.contribs w)) k := by
-    intro k; induction k with
-    | zero => intro h; omega
-    | succ k ih =>
-      intro _
-      simp only [sumW]
-      by_cases hk : k = 0
-      · subst hk; simp [sumW, owed]
-      · rw [ih (by omega)]; simp only [owed, if_neg hk]; abel
-  rw [key c.n hn, totalOf, sumW_range]
+  rw [totalOf, sumW_range]; rfl
 
-theorem inv_init (c : Config M) (hn : 0 < c.n) (shared0 : M) : Inv c shared0 (init shared0) := by
+theorem inv_init (c : Config M) (shared0 : M) : Inv c shared0 (init shared0) := by
   constructor
   · intro w _ h; simp [init, holds] at h
   · intro w _ h; simp [init] at h
   · intro w k _ h; simp [init] at h
   · intro w _ h; simp [init, isDirect] at h
   · intro w k _ h; simp [init] at h
-  · simp only [init]; rw [sumW_owed_init c hn]
+  · simp only [init]; rw [sumW_owed_init c]
 
 /-- bookkeeping for a step of worker `w` that replaces its record by `x'` and the shared value by `sh'` -/
 theorem acct_step {c : Config M} {shared0 : M} {s : State M} {w : Nat} {x' : Worker M} {sh' : M}
@@ -158,8 +148,8 @@ theorem inv_frame (hi : Inv c shared0 s) (hw : w < c.n) (hwk : s'.wk = upd s.wk 
     (hsh : s'.shared = s.shared ∨
       (∀ v, v < c.n → v ≠ w → (s.wk v).pc ≠ .finStore ∧ ∀ k, (s.wk v).pc ≠ .directSt k))
     (hregF : x'.pc = .finStore → x'.reg = s'.shared) (hregD : ∀ k, x'.pc = .directSt k → x'.reg = s'.shared)
-    (hd0 : isDirect x'.pc = true → w = 0 ∧ x'.loc = 0)
-    (hdk : ∀ k, x'.pc = .direct k ∨ x'.pc = .directSt k → k < c.direct.length)
+    (hd0 : isDirect x'.pc = true → x'.loc = 0)
+    (hdk : ∀ k, x'.pc = .direct k ∨ x'.pc = .directSt k → k < (c.direct w).length)
     (hacct : ∀ r : M, s'.shared + (r + owed c w x') = s.shared + (r + owed c w (s.wk w))) :
     Inv c shared0 s' := by
   constructor
@@ -203,10 +193,11 @@ theorem inv_frame (hi : Inv c shared0 s) (hw : w < c.n) (hwk : s'.wk = upd s.wk 
     · rw [hwk, upd_other _ _ hvw] at hp; exact hi.dirK v k hv hp
   · rw [hwk]; exact acct_step hi hw hacct
 
-theorem afterDirect_cases (c : Config M) (k : Nat) :
-    (k < c.direct.length ∧ afterDirect c k = .direct k) ∨ (c.direct.length ≤ k ∧ afterDirect c k = .exec 0) := by
+theorem afterDirect_cases (c : Config M) (w k : Nat) :
+    (k < (c.direct w).length ∧ afterDirect c w k = .direct k) ∨
+    ((c.direct w).length ≤ k ∧ afterDirect c w k = .exec 0) := by
   unfold afterDirect
-  by_cases h : k < c.direct.length
+  by_cases h : k < (c.direct w).length
   · left; exact ⟨h, by simp [h]⟩
   · right; exact ⟨by omega, by simp [h]⟩
 
@@ -217,20 +208,15 @@ theorem inv_step (hi : Inv c shared0 s) (hnr : ¬ Race c s) (h : step c s w = so
     cases hpc : (s.wk w).pc <;> simp only [hpc] at h
     case init =>
       injection h with h; subst h
-      by_cases hw0 : w = 0
-      · subst hw0
-        rcases afterDirect_cases c 0 with ⟨hk, e⟩ | ⟨hk, e⟩
-        · refine inv_frame hi hw rfl .keep ⟨rfl, by simp [e, hpc, holds]⟩ (Or.inl rfl) (by simp [e])
-            (by simp [e]) (by intro _; exact ⟨rfl, rfl⟩) (by simp [e]; omega) ?_
-          intro r; simp [owed, hpc, e]
-        · refine inv_frame hi hw rfl .keep ⟨rfl, by simp [e, hpc, holds]⟩ (Or.inl rfl) (by simp [e])
-            (by simp [e]) (by simp [e, isDirect]) (by simp [e]) ?_
-          intro r
-          have : c.direct = [] := List.eq_nil_of_length_eq_zero (by omega)
-          simp [owed, hpc, e, this, sumList]
-      · refine inv_frame hi hw rfl .keep ⟨rfl, by simp [hw0, hpc, holds]⟩ (Or.inl rfl) (by simp [hw0])
-          (by simp [hw0]) (by simp [hw0, isDirect]) (by simp [hw0]) ?_
-        intro r; simp [owed, hpc, hw0]
+      rcases afterDirect_cases c w 0 with ⟨hk, e⟩ | ⟨hk, e⟩
+      · refine inv_frame hi hw rfl .keep ⟨rfl, by simp [e, hpc, holds]⟩ (Or.inl rfl) (by simp [e])
+          (by simp [e]) (by intro _; rfl) (by simp [e]; omega) ?_
+        intro r; simp [owed, hpc, e]
+      · refine inv_frame hi hw rfl .keep ⟨rfl, by simp [e, hpc, holds]⟩ (Or.inl rfl) (by simp [e])
+          (by simp [e]) (by simp [e, isDirect]) (by simp [e]) ?_
+        intro r
+        have : c.direct w = [] := List.eq_nil_of_length_eq_zero (by omega)
+        simp [owed, hpc, e, this, sumList]
     case direct k =>
       injection h with h; subst h
       refine inv_frame hi hw rfl .keep ⟨rfl, by simp [hpc, holds]⟩ (Or.inl rfl) (by simp) (by simp)
@@ -240,8 +226,8 @@ theorem inv_step (hi : Inv c shared0 s) (hnr : ¬ Race c s) (h : step c s w = so
     case directSt k =>
       have hk := hi.dirK w k hw (Or.inr hpc)
       have hreg := hi.regD w k hw hpc
-      obtain ⟨hw0, hloc⟩ := hi.dir0 w hw (by simp [hpc, isDirect])
-      have hget : c.direct[k]? = some c.direct[k] := List.getElem?_eq_getElem hk
+      have hloc := hi.dir0 w hw (by simp [hpc, isDirect])
+      have hget : (c.direct w)[k]? = some (c.direct w)[k] := List.getElem?_eq_getElem hk
       rw [hget] at h
       simp only at h
       injection h with h; subst h
@@ -252,9 +238,9 @@ theorem inv_step (hi : Inv c shared0 s) (hnr : ¬ Race c s) (h : step c s w = so
         constructor
         · intro e; rw [e] at this; simp [pendingShared] at this
         · intro k' e; rw [e] at this; simp [pendingShared] at this
-      rcases afterDirect_cases c (k + 1) with ⟨hk1, e⟩ | ⟨hk1, e⟩
+      rcases afterDirect_cases c w (k + 1) with ⟨hk1, e⟩ | ⟨hk1, e⟩
       · refine inv_frame hi hw rfl .keep ⟨rfl, by simp [e, hpc, holds]⟩ (Or.inr hsh) (by simp [e]) (by simp [e])
-          (by intro _; exact ⟨hw0, hloc⟩) (by simp [e]; omega) ?_
+          (by intro _; exact hloc) (by simp [e]; omega) ?_
         intro r
         simp only [owed, hpc, e, hreg]
         rw [sumList_drop hget]; abel
@@ -262,7 +248,7 @@ theorem inv_step (hi : Inv c shared0 s) (hnr : ¬ Race c s) (h : step c s w = so
           (by simp [e, isDirect]) (by simp [e]) ?_
         intro r
         simp only [owed, hpc, e, hreg, hloc, List.drop_zero]
-        rw [sumList_drop hget, List.drop_eq_nil_of_le (by omega : c.direct.length ≤ k + 1)]
+        rw [sumList_drop hget, List.drop_eq_nil_of_le (by omega : (c.direct w).length ≤ k + 1)]
         simp only [sumList]; abel
     case exec k =>
       split at h
@@ -331,12 +317,12 @@ theorem run_take_succ (c : Config M) (s : State M) (sched : List Nat) (k : Nat) 
   rw [List.take_succ_eq_append_getElem hk, run_append]; rfl
 
 /-- along a race-free schedule the invariant holds after every prefix -/
-theorem inv_prefix (hn : 0 < c.n) (sched : List Nat)
+theorem inv_prefix (sched : List Nat)
     (hrf : ∀ k, ¬ Race c (run c (init shared0) (sched.take k))) :
     ∀ k, Inv c shared0 (run c (init shared0) (sched.take k)) := by
   intro k
   induction k with
-  | zero => simp only [List.take_zero, run]; exact inv_init c hn shared0
+  | zero => simp only [List.take_zero, run]; exact inv_init c shared0
   | succ k ih =>
     by_cases hk : k < sched.length
     · rw [run_take_succ c _ sched k hk]
@@ -355,33 +341,33 @@ theorem sumW_zero (h : Nat → M) : ∀ k, (∀ v, v < k → h v = 0) → sumW h
 /-- **`total_order_independent`**: in any commutative monoid, for every worker count, every assignment of
 increments and every interleaving: if the schedule is race free and runs all workers to completion, the shared
 arrays end up holding the initial value plus the sum of all increments — whatever the order. -/
-theorem total_order_independent_aux (hn : 0 < c.n) (sched : List Nat) (hrf : RaceFree c shared0 sched)
+theorem total_order_independent_aux (sched : List Nat) (hrf : RaceFree c shared0 sched)
     (hc : Complete c (run c (init shared0) sched)) :
     (run c (init shared0) sched).shared = shared0 + totalOf c := by
-  have hi := inv_prefix hn sched hrf sched.length
+  have hi := inv_prefix sched hrf sched.length
   rw [List.take_length] at hi
   have := hi.acct
   rw [sumW_zero _ c.n (fun v hv => by simp only [owed, hc v hv])] at this
   simpa using this
 
 /-- with the mutex discipline in force (no direct increments) no reachable state has a race -/
-theorem no_race_of_inv {s : State M} (hi : Inv c shared0 s) (hd : c.direct = []) : ¬ Race c s := by
+theorem no_race_of_inv {s : State M} (hi : Inv c shared0 s) (hd : ∀ w, w < c.n → c.direct w = []) : ¬ Race c s := by
   rintro ⟨a, b, ha, hb, hab, ra, rb, pa, pb, _⟩
   have key : ∀ v, v < c.n → ∀ r, pendingShared (s.wk v).pc = some r → holds (s.wk v).pc = true := by
     intro v hv r hp
     cases hpc : (s.wk v).pc <;> rw [hpc] at hp <;> simp [pendingShared] at hp <;> simp [holds]
-    · have := hi.dirK v _ hv (Or.inl hpc); rw [hd] at this; simp at this
-    · have := hi.dirK v _ hv (Or.inr hpc); rw [hd] at this; simp at this
+    · have := hi.dirK v _ hv (Or.inl hpc); rw [hd v hv] at this; simp at this
+    · have := hi.dirK v _ hv (Or.inr hpc); rw [hd v hv] at this; simp at this
   have h1 := hi.lock a ha (key a ha ra pa)
   have h2 := hi.lock b hb (key b hb rb pb)
   rw [h1] at h2; injection h2 with h2; exact hab h2
 
-theorem raceFree_of_locals_only_aux (hn : 0 < c.n) (hd : c.direct = []) (sched : List Nat) :
+theorem raceFree_of_locals_only_aux (hd : ∀ w, w < c.n → c.direct w = []) (sched : List Nat) :
     RaceFree c shared0 sched := by
   have both : ∀ k, Inv c shared0 (run c (init shared0) (sched.take k)) := by
     intro k
     induction k with
-    | zero => simp only [List.take_zero, run]; exact inv_init c hn shared0
+    | zero => simp only [List.take_zero, run]; exact inv_init c shared0
     | succ k ih =>
       by_cases hk : k < sched.length
       · rw [run_take_succ c _ sched k hk]
@@ -436,38 +422,58 @@ theorem exec_chain (w : Nat) (hw : w < c.n) : ∀ j k (s : State M), (s.wk w).pc
     simp only [run, hs, Option.getD_some]
     exact ⟨h1, fun v hv => by rw [h2 v hv]; exact upd_other _ _ hv, h3⟩
 
-/-- **the current code is not race free**: whenever task 0 adds anything directly into the shared arrays
-(`direct ≠ []`) and a second worker exists, some interleaving has worker 0 reading the shared arrays while
-another worker's `finish()` is about to write them. -/
-theorem race_witness (hn : 2 ≤ c.n) (hd : c.direct ≠ []) (shared0 : M) :
+/-- **a direct (unlocked) increment by any worker is a race**: whenever some worker adds anything directly into
+the shared arrays (`direct a ≠ []`) and a second worker exists, some interleaving has two workers about to access
+the shared arrays, one of them writing. -/
+theorem race_witness (a : Nat) (ha : a < c.n) (hn : 2 ≤ c.n) (hd : c.direct a ≠ []) (shared0 : M) :
     ∃ sched, Race c (run c (init shared0) sched) := by
-  have hlen : 0 < c.direct.length := List.length_pos_iff.mpr hd
-  -- worker 0: initialize, now about to load the shared array
-  have hs1 : step c (init shared0) 0 = some { (init shared0) with wk := upd (init shared0).wk 0 ⟨.direct 0, 0, 0⟩ } := by
-    simp [step, init, afterDirect, hlen, show 0 < c.n by omega]
-  -- worker 1: initialize
-  set s1 : State M := { (init shared0) with wk := upd (init shared0).wk 0 ⟨.direct 0, 0, 0⟩ } with hs1def
-  have hw1 : (s1.wk 1) = ⟨.init, 0, 0⟩ := by simp [s1, upd, init]
-  have hs2 : step c s1 1 = some { s1 with wk := upd s1.wk 1 ⟨.exec 0, 0, 0⟩ } := by
-    simp [step, show 1 < c.n by omega, hw1]
-  set s2 : State M := { s1 with wk := upd s1.wk 1 ⟨.exec 0, 0, 0⟩ } with hs2def
-  obtain ⟨sched, h1, h2, h3⟩ := exec_chain (c := c) 1 (by omega) (c.contribs 1).length 0 s2 (by simp [s2]) (by omega)
-  set s3 := run c s2 sched with hs3def
-  have hm3 : s3.mutex = none := by rw [h3]; rfl
-  have hs4 : step c s3 1 = some { s3 with mutex := some 1, wk := upd s3.wk 1 { s3.wk 1 with pc := .finLoad } } := by
-    simp only [step, show 1 < c.n by omega, if_true, h1, hm3]
-  set s4 : State M := { s3 with mutex := some 1, wk := upd s3.wk 1 { s3.wk 1 with pc := .finLoad } } with hs4def
-  have hs5 : step c s4 1 = some { s4 with wk := upd s4.wk 1 { s4.wk 1 with reg := s4.shared, pc := .finStore } } := by
-    simp [step, show 1 < c.n by omega, s4]
-  refine ⟨[0, 1] ++ sched ++ [1, 1], ?_⟩
-  rw [run_append, run_append]
-  have e1 : run c (init shared0) [0, 1] = s2 := by
-    simp only [run, hs1, Option.getD_some, hs2]
-  rw [e1, ← hs3def]
-  simp only [run, hs4, Option.getD_some, hs5]
-  refine ⟨0, 1, by omega, by omega, by omega, false, true, ?_, ?_, Or.inr rfl⟩
-  · have : s3.wk 0 = s2.wk 0 := h2 0 (by omega)
-    simp [upd, s4, this, s2, s1, pendingShared]
-  · simp [pendingShared]
+  have hlen : 0 < (c.direct a).length := List.length_pos_iff.mpr hd
+  -- a second worker
+  obtain ⟨b, hb, hab⟩ : ∃ b, b < c.n ∧ b ≠ a := by
+    by_cases h0 : a = 0
+    · exact ⟨1, by omega, by omega⟩
+    · exact ⟨0, by omega, fun e => h0 e.symm⟩
+  have hne : a ≠ b := fun e => hab e.symm
+  -- worker a: initialize, load the shared array: now about to store into it
+  have hs1 : step c (init shared0) a = some { (init shared0) with wk := upd (init shared0).wk a ⟨.direct 0, 0, 0⟩ } := by
+    simp [step, init, afterDirect, hlen, ha]
+  set s1 : State M := { (init shared0) with wk := upd (init shared0).wk a ⟨.direct 0, 0, 0⟩ } with hs1def
+  have hs1a : step c s1 a = some { s1 with wk := upd s1.wk a ⟨.directSt 0, shared0, 0⟩ } := by
+    simp [step, ha, s1, init]
+  set s1' : State M := { s1 with wk := upd s1.wk a ⟨.directSt 0, shared0, 0⟩ } with hs1'def
+  have hwb : (s1'.wk b) = ⟨.init, 0, 0⟩ := by simp [s1', s1, upd, init, hab]
+  have hwa : (s1'.wk a) = ⟨.directSt 0, shared0, 0⟩ := by simp [s1', upd]
+  by_cases hdb : c.direct b = []
+  · -- worker b has only thread-local work: run it up to the store of its finish()
+    have hs2 : step c s1' b = some { s1' with wk := upd s1'.wk b ⟨.exec 0, 0, 0⟩ } := by
+      simp [step, hb, hwb, afterDirect, hdb]
+    set s2 : State M := { s1' with wk := upd s1'.wk b ⟨.exec 0, 0, 0⟩ } with hs2def
+    obtain ⟨sched, h1, h2, h3⟩ := exec_chain (c := c) b hb (c.contribs b).length 0 s2 (by simp [s2]) (by omega)
+    set s3 := run c s2 sched with hs3def
+    have hm3 : s3.mutex = none := by rw [h3]; rfl
+    have hs4 : step c s3 b = some { s3 with mutex := some b, wk := upd s3.wk b { s3.wk b with pc := .finLoad } } := by
+      simp only [step, hb, if_true, h1, hm3]
+    set s4 : State M := { s3 with mutex := some b, wk := upd s3.wk b { s3.wk b with pc := .finLoad } } with hs4def
+    have hs5 : step c s4 b = some { s4 with wk := upd s4.wk b { s4.wk b with reg := s4.shared, pc := .finStore } } := by
+      simp [step, hb, s4]
+    refine ⟨[a, a, b] ++ sched ++ [b, b], ?_⟩
+    rw [run_append, run_append]
+    have e1 : run c (init shared0) [a, a, b] = s2 := by
+      simp only [run, hs1, Option.getD_some, hs1a, hs2]
+    rw [e1, ← hs3def]
+    simp only [run, hs4, Option.getD_some, hs5]
+    refine ⟨a, b, ha, hb, fun e => hab e.symm, true, true, ?_, ?_, Or.inl rfl⟩
+    · have : s3.wk a = s2.wk a := h2 a (fun e => hab e.symm)
+      simp [upd, s4, this, s2, hwa, pendingShared, hne]
+    · simp [pendingShared]
+  · -- worker b also increments the shared arrays directly: its first load races with a's store
+    have hlenb : 0 < (c.direct b).length := List.length_pos_iff.mpr hdb
+    have hs2 : step c s1' b = some { s1' with wk := upd s1'.wk b ⟨.direct 0, 0, 0⟩ } := by
+      simp [step, hb, hwb, afterDirect, hlenb]
+    refine ⟨[a, a, b], ?_⟩
+    simp only [run, hs1, Option.getD_some, hs1a, hs2]
+    refine ⟨a, b, ha, hb, fun e => hab e.symm, true, false, ?_, ?_, Or.inl rfl⟩
+    · simp [upd, hwa, pendingShared, hne]
+    · simp [pendingShared]
 end witness
 end C17
